@@ -273,3 +273,20 @@ def enqueue_unbounded(h):
         h.oblige("accepted only when fewer than ten unexpired entries are held", _sym.Not(full))
         h.oblige("queue = unexpired old entries in order, then the new entry", _seq_eq(q.t, _z3.Concat(kept, _z3.Unit(new_id))))
         h.cover("accept path")
+
+
+@oset("socket.retry-policies", ["C02", "C01"], [])
+def retry_policies(h):
+    """The three policies every command of the API uses (the API contracts prove *which* one; this set what they are)."""
+    idem, non, conn = (h.get(SOCK + ":" + n) for n in ("RETRY_IDEMPOTENT", "RETRY_NON_IDEMPOTENT", "RETRY_CONNECTED"))
+    h.oblige("a non-idempotent command is never retried: RETRY_NON_IDEMPOTENT.max_retries == 0", h.attr(non, "max_retries") == 0)
+    h.oblige("requests that only make sense on the current connection are never retried and live one second: RETRY_CONNECTED == (0, 1.0)",
+             And(h.attr(conn, "max_retries") == 0, h.eq(h.attr(conn, "max_lifetime"), 1.0)))
+    h.oblige("idempotent commands survive a transient write failure: RETRY_IDEMPOTENT.max_retries >= 1 (2), lifetime 30 s",
+             And(h.attr(idem, "max_retries") == 2, h.eq(h.attr(idem, "max_lifetime"), 30.0)))
+    h.oblige("non-idempotent commands live 30 s", h.eq(h.attr(non, "max_lifetime"), 30.0))
+    h.oblige("the three policies are distinct objects (the API contracts identify them by identity)",
+             And(idem is not non, idem is not conn, non is not conn))
+    r, l = h.int("r", 0, 9), h.real("l", 0, 100)
+    p = h.new(SOCK + ":RetryPolicy", max_retries=r, max_lifetime=l)
+    h.oblige("a policy carries exactly the retry count and lifetime it is constructed with", And(h.eq(h.attr(p, "max_retries"), r), h.eq(h.attr(p, "max_lifetime"), l)))
